@@ -18,8 +18,10 @@ RULE = ("random AMR leaf tilings (2-D and 3-D, 1-800 cells, 0-4 refinement level
         "offset boxes, positions in cm/m/km/au/pc, rows permuted) x origin (uniform in the enlarged bounding box; "
         "snapped to a cell centre / face / corner at 20%; omitted) x orientation (axis letter, three letters, explicit "
         "orthonormal VectorBasis from a random rotation, normal Vector) x window dx(,dy) from 0.05 x smallest cell to 3 "
-        "x domain in a random length unit, or omitted x resolution 1-24 (int or {x,y} dict) x 1-3 layers (scalar, "
-        "vector as norm, vector in mode 'vec') x numba thread count.  Oracle: sample points rebuilt from the returned "
+        "x domain in a random length unit (dy optionally in another unit), or omitted; a class with pixels of 1-1.75 cell sizes, "
+        ">= 10 pixels and mostly oblique bases x resolution 1-24 (int, {x,y} dict, a dict with one key, or omitted) x 1-3 layers "
+        "(positive float scalars, a signed int64 scalar with a zero, vector as norm, vector in mode 'vec' or 'stream') x "
+        "numba thread count; the unit of every returned layer must be that of its data.  Oracle: sample points rebuilt from the returned "
         "Plot.x / Plot.y as origin + x_i u + y_j v, brute-force point location over all cells with an epsilon band on "
         "faces: a point strictly inside cell c must show c's value and be unmasked, a point touching no cell must be "
         "masked, points on faces may show any touching cell or be masked; with dx given Plot.x must be the pixel-centre "
@@ -65,13 +67,30 @@ def map_case_st(draw, thick=False):
                    "unit": draw(st.sampled_from(meshes.LEN_UNITS))},
         "orient": draw(orient_st),
         "window": {"given": draw(st.integers(0, 9)) > 0,
-                   "cls": draw(st.sampled_from(["<0.1", "0.1-1", "0.1-1", "1-10", "1-10", ">10", "pixel~cell", "pixel~cell"])),
+                   "cls": draw(st.sampled_from(["<0.1", "0.1-1", "0.1-1", "1-10", "1-10", ">10", "pixel~cell", "pixel~cell", "pixel~cell"])),
                    "frac": draw(st.floats(0, 1)), "dy": draw(st.sampled_from([None, None, 0.5, 2.0])),
-                   "unit": draw(st.sampled_from(meshes.LEN_UNITS))},
+                   "unit": draw(st.sampled_from(meshes.LEN_UNITS)),
+                   # dy may be given in another unit than dx
+                   "dy_unit": draw(st.sampled_from([None, None] + meshes.LEN_UNITS))},
         "res": draw(st.one_of(st.integers(1, 24), st.fixed_dictionaries({"x": st.integers(1, 24), "y": st.integers(1, 24)}))),
-        "layers": draw(st.lists(st.sampled_from(["scalar1", "scalar2", "vecnorm", "vec"]), min_size=1, max_size=3)),
+        "layers": draw(st.lists(st.sampled_from(["scalar1", "scalar2", "scalar3", "vecnorm", "vec", "vec_stream"]), min_size=1,
+                                max_size=3)),
         "schedule": draw(st.integers(0, 3)) == 0,
     }
+    if not thick and case["window"]["cls"] == "pixel~cell" and mesh["d"] == 3:
+        # the class is about cells seen obliquely through pixels of about their own size: enough pixels, mostly oblique
+        if isinstance(case["res"], int):
+            case["res"] = max(case["res"], 10)
+        else:
+            case["res"] = {k: max(v, 10) for k, v in case["res"].items()}
+        if case["orient"]["t"] in ("letter", "triple") and draw(st.integers(0, 3)) > 0:
+            case["orient"] = {"t": "basis", "angles": [draw(st.floats(0.2, 1.3)) for _ in range(3)]}
+    if not thick and draw(st.integers(0, 11)) == 0:
+        # resolution given for one axis only (the other takes the default), or not at all
+        k = case["res"] if isinstance(case["res"], int) else case["res"]["x"]
+        case["res_form"] = draw(st.sampled_from(["x_only", "y_only", "none"]))
+        case["res"] = {"x": min(k, 6), "y": min(k, 6)}
+        case["mesh"]["max_cells"] = min(case["mesh"].get("max_cells", 200), 120)
     if thick:
         case["window"]["cls"] = draw(st.sampled_from(["1-10", ">10", "1-10", "0.1-1", "1-10", "<0.1"]))
         case["origin"]["mode"] = draw(st.sampled_from(["inside", "inside", "inside", "uniform", "centre", "face", "none"]))
@@ -79,6 +98,10 @@ def map_case_st(draw, thick=False):
                       "frac": draw(st.floats(0, 1)), "unit": draw(st.sampled_from(meshes.LEN_UNITS))}
         case["op"] = draw(st.sampled_from(["nansum", "mean", "nanmean", "sum", "min", "nanmax", "max", "nanmin"]))
         case["resz"] = draw(st.sampled_from([None, None, 1, 2, 3, 5, 8]))
+        # where the reduction is chosen: at the call, or on every Layer with another reduction named at the call
+        case["op_at"] = draw(st.sampled_from(["call", "call", "layer"]))
+        if case["resz"] is not None and case["resz"] <= 3 and draw(st.integers(0, 9)) == 0:
+            case["res_form"] = draw(st.sampled_from(["x_z", "y_z", "z_only"]))      # dict without x and/or y: defaults
         if isinstance(case["res"], int):
             case["res"] = min(case["res"], 12)
         else:
@@ -150,7 +173,7 @@ def setup_map(case, m):
     lo_hi = {"<0.1": (0.05 * smin, 0.1 * smed), "0.1-1": (0.1 * smed, 1.0 * smed), "1-10": (1.0 * smed, 10 * smed),
              ">10": (10 * smed, max(3 * L, 11 * smed)),
              # pixels between one and two cell sizes: a cell can cover a neighbouring pixel's centre only obliquely
-             "pixel~cell": (nres * smed * 0.9, nres * smed * 2.0)}[w["cls"]]
+             "pixel~cell": (nres * smed * 1.02, nres * smed * 1.75)}[w["cls"]]
     a, b = lo_hi
     b = max(b, a * 1.0001)
     dxw = a * (b / a) ** w["frac"]
@@ -171,34 +194,48 @@ def call_kwargs(case, m, su, thick=None):
         f = um.parse(pu)[0] / um.parse(ou)[0]
         kw["origin"] = osyris.Vector(*[osyris.Array(values=float(su["origin"][i] * f), unit=ou) for i in range(d)])
     w = case["window"]
-    if w["given"] or thick:
+    if w["given"]:
         wu = w["unit"]
         f = um.parse(pu)[0] / um.parse(wu)[0]
         kw["dx"] = float(su["dx"] * f) * osyris.units(wu)
         if w["dy"] is not None:
-            kw["dy"] = float(su["dy"] * f) * osyris.units(wu)
+            yu = w.get("dy_unit") or wu
+            kw["dy"] = float(su["dy"] * um.parse(pu)[0] / um.parse(yu)[0]) * osyris.units(yu)
     res = case["res"]
     kw["resolution"] = res if isinstance(res, int) else dict(res)
+    form = case.get("res_form")
+    if form == "x_only":
+        kw["resolution"] = {"x": res["x"]}
+    elif form == "y_only":
+        kw["resolution"] = {"y": res["y"]}
+    elif form == "none":
+        kw.pop("resolution")
     return kw, nuv
 
 
-def make_layers(case, dg):
+def make_layers(case, dg, **layer_kw):
     out = []
     for name in case["layers"]:
         if name == "vec":
-            out.append(dg.layer("vec", mode="vec"))
+            out.append(dg.layer("vec", mode="vec", **layer_kw))
+        elif name == "vec_stream":
+            out.append(dg.layer("vec", mode="stream", **layer_kw))
         elif name == "vecnorm":
-            out.append(dg.layer("vec"))
+            out.append(dg.layer("vec", **layer_kw))
         else:
-            out.append(dg.layer(name))
+            out.append(dg.layer(name, **layer_kw))
     return out
+
+
+VEC_MODES = ("vec", "vec_stream")
+LAYER_UNIT = {"scalar1": "K", "scalar2": "g/cm**3", "scalar3": "erg", "vec": "km/s", "vec_stream": "km/s", "vecnorm": "km/s"}
 
 
 def cell_layer_scale(name, m):
     """magnitude against which rounding of a layer's per-cell values is judged (projections can cancel to ~0)"""
-    if name in ("vec", "vecnorm"):
+    if name in ("vec", "vec_stream", "vecnorm"):
         return np.sqrt(np.sum(m.vec[:, : m.d] ** 2, axis=1))
-    return np.abs(m.scalar1 if name == "scalar1" else m.scalar2)
+    return np.abs({"scalar1": m.scalar1, "scalar2": m.scalar2, "scalar3": m.scalar3.astype(np.float64)}[name])
 
 
 def cell_layer_values(name, m, u, v):
@@ -207,6 +244,8 @@ def cell_layer_values(name, m, u, v):
         return m.scalar1
     if name == "scalar2":
         return m.scalar2
+    if name == "scalar3":
+        return m.scalar3.astype(np.float64)
     vec = m.vec[:, : m.d]
     if name == "vecnorm":
         return np.sqrt(np.sum(vec ** 2, axis=1))
@@ -246,6 +285,11 @@ def check_grid(r, p, case, su, kw, tag):
     res = case["res"]
     nx = res if isinstance(res, int) else res["x"]
     ny = res if isinstance(res, int) else res["y"]
+    form = case.get("res_form")
+    if form in ("y_only", "none", "y_z", "z_only"):
+        nx = len(p.x)             # the default count is not part of the property: read it from the result
+    if form in ("x_only", "none", "x_z", "z_only"):
+        ny = len(p.y)
     wu = case["window"]["unit"]
     f = um.parse(case["mesh"]["pos_unit"])[0] / um.parse(wu)[0]
     for nm, got, n, width in (("x", p.x, nx, su["dx"] * f), ("y", p.y, ny, su["dy"] * f)):
@@ -270,6 +314,12 @@ def thin_map(case, r):
             "orient_" + case["orient"]["t"] if d == 3 else "orient_2d", "origin_" + case["origin"]["mode"])
     if case["mesh"]["dx_unit"] == "other":
         r.label("dx_in_other_unit")
+    if case.get("res_form"):
+        r.label("resolution_" + case["res_form"])
+    if "dy" in kw and case["window"].get("dy_unit") not in (None, case["window"]["unit"]):
+        r.label("dy_in_other_unit")
+    for nme in set(case["layers"]):
+        r.label("layer_" + nme)
     p, exc = run_map(layers, kw)
     if exc is not None and not isinstance(exc, RuntimeError):
         r.bad(["raises", type(exc).__name__, f"d{d}"], f"{exc!r}; kw={ {k: str(v)[:60] for k, v in kw.items()} } ncells={m.n}")
@@ -289,6 +339,10 @@ def thin_map(case, r):
         res = case["res"]
         nx = res if isinstance(res, int) else res["x"]
         ny = res if isinstance(res, int) else res["y"]
+        if case.get("res_form") in ("y_only", "none"):
+            nx = 256
+        if case.get("res_form") in ("x_only", "none"):
+            ny = 256
         xs = -0.5 * su["dx"] + (np.arange(nx) + 0.5) * su["dx"] / nx
         ys = -0.5 * su["dy"] + (np.arange(ny) + 0.5) * su["dy"] / ny
         pts = su["origin"][None, None, :] + xs[None, :, None] * u[None, None, :d] + ys[:, None, None] * v[None, None, :d]
@@ -321,14 +375,16 @@ def thin_map(case, r):
         mask = np.ma.getmaskarray(data)
         vals = np.ma.getdata(data)
         cv = cell_layer_values(name, m, u, v)
-        isvec = name == "vec"
+        isvec = name in VEC_MODES
         want_shape = (ny, nx, 3) if isvec else (ny, nx)
         if vals.shape != want_shape:
             r.bad(["layer-shape", name], f"{vals.shape} vs {want_shape}")
             return
         pm = mask.all(axis=2) if isvec else mask
+        pm_any = mask.any(axis=2) if isvec else mask        # a pixel inside a cell shows all of its components
         # (a) strictly inside: unmasked and the cell's value
-        if np.any(inside & pm):
+        if np.any(inside & pm_any):
+            pm = pm_any
             j, i = np.argwhere(inside & pm)[0]
             r.bad(["masked-although-inside", f"d{d}", "ratio=" + (case["window"]["cls"] if "dx" in kw else "auto")],
                   f"layer {name} pixel (j={j}, i={i}) is masked but its sample point {pts[j, i].tolist()} lies strictly inside "
@@ -368,6 +424,9 @@ def thin_map(case, r):
         if lay.get("unit") is None:
             r.bad(["layer-unit-missing", name], "")
             return
+        if osyris.units(lay["unit"]) != osyris.units(LAYER_UNIT[name]):
+            r.bad(["layer-unit", name], f"thin map layer {name} has unit [{lay['unit']}], the data are in [{LAYER_UNIT[name]}]")
+            return
     # schedule / permutation metamorphic check
     if case["schedule"]:
         r.label("schedule_checked")
@@ -382,7 +441,7 @@ def thin_map(case, r):
                 m1, m2 = np.ma.getmaskarray(l1["data"]), np.ma.getmaskarray(l2["data"])
                 v1, v2 = np.ma.getdata(l1["data"]), np.ma.getdata(l2["data"])
                 dec = inside | ~any_touch
-                dec = dec[..., None] if name == "vec" else dec
+                dec = dec[..., None] if name in VEC_MODES else dec
                 if np.any(dec & (m1 != m2)) or np.any(dec & ~m1 & ~m2 & (v1 != v2)):
                     r.bad(["schedule", "result-differs"], f"threads={threads} permuted={group is dg2}: layer {name} differs on decided pixels")
                     return
@@ -393,7 +452,8 @@ def rendered(case, r):
     axis labels carry that unit."""
     import matplotlib.pyplot as plt
 
-    case = dict(case, layers=[n for n in case["layers"] if n != "vec"] or ["scalar1"])
+    case = dict(case, layers=[n for n in case["layers"] if n not in VEC_MODES] or ["scalar1"])
+    case.pop("res_form", None)
     case["window"] = dict(case["window"], given=True)
     m = meshes.build(case["mesh"])
     dg = meshes.datagroup(m, osyris)
@@ -438,6 +498,6 @@ def rendered(case, r):
 
 def subs(ctx):
     return [Sub("rendered", rendered, strategy=map_case_st(), quick=25, thorough=60),
-            Sub("thin_map", thin_map, strategy=map_case_st(), quick=220, thorough=1500,
+            Sub("thin_map", thin_map, strategy=map_case_st(), quick=350, thorough=1500,
                 required={"d2": 0.25, "d3": 0.25, "has_inside_pixels": 0.5, "ratio_<0.1": 0.06, "ratio_0.1-1": 0.1,
                           "ratio_1-10": 0.1, "ratio_>10": 0.06, "schedule_checked": 0.1})]
